@@ -479,11 +479,22 @@ def case_seed(d):
     seed = desc_arr(d["seed"])
     target = desc_arr(d["target"])
     v = d.get("v", "plain")
-    out = np.atleast_1d(np.asarray(corr.seed_corrcoef(as_variant(seed, v), as_variant(target, v))))
     N = len(seed)
     rows = target.reshape(-1, N)
+    if v in ("analyzer", "analyzer2"):
+        # SeedCorrelationAnalyzer.corrcoef: single-seed branch / seed time-series with a channel axis
+        ts = mods()[4]
+        from nitime.analysis import SeedCorrelationAnalyzer
+        A = SeedCorrelationAnalyzer(ts.TimeSeries(seed if v == "analyzer" else seed.reshape(1, N), sampling_interval=1.0),
+                                    ts.TimeSeries(target, sampling_interval=1.0))
+        out = np.atleast_1d(np.asarray(A.corrcoef))
+    else:
+        out = np.atleast_1d(np.asarray(corr.seed_corrcoef(as_variant(seed, v), as_variant(target, v))))
+    if out.size != len(rows):
+        raise AssertionError("seed correlation returned %d values for %d target series" % (out.size, len(rows)))
     coq = "(KSeed %s %s %s %s)" % (nlit(N), fl(seed), llit([fl(r) for r in rows]), fl(out))
-    c = Case(coq, {"d": d, "observed": arr_desc(out)}, "seed/%s/rows=%d" % (dclass(seed), len(rows)))
+    c = Case(coq, {"d": d, "observed": arr_desc(out)}, "seed/%s/rows=%d%s%s" % (
+        dclass(seed), len(rows), "/baseline" if d.get("baseline") else "", "/analyzer" if v.startswith("analyzer") else ""))
     c.out = out
     return c
 
@@ -549,6 +560,70 @@ def gen_seed(rng, maxn, N=None):
     sc2 = pick_scale(rng, "float64")
     return {"k": "seed", "seed": arr_desc(seed * 2.0 ** sc), "target": arr_desc(t2.reshape(tshape) * 2.0 ** sc2),
             "v": rng.choice(["plain", "plain", "fortran", "strided", "negstride", "readonly", "plus0", "list"])}
+
+
+BASELINES = [2 ** 20, 2 ** 24, 2 ** 27, 2 ** 30, 10 ** 9, -2 ** 27, 3 * 10 ** 6, 2 ** 22 + 1]
+
+
+def small_fluct(rng, N, amp=20):
+    """N small integers, not all equal"""
+    while True:
+        f = [rng.randint(-amp, amp) for _ in range(N)]
+        if len(set(f)) > 1:
+            return f
+
+
+def gen_seed_baseline(rng, maxn, N=None):
+    """The Pearson coefficient does not depend on the baseline (offset) of either series: small integer
+    fluctuations (exactly representable) riding on a baseline 2**20..2**30 / 1e9 that is 1e5..1e8 times
+    larger, in the targets (1-d, 2-d, 3-d), the seed, or both; float64 or integer storage.  The required
+    value is the exact rational Pearson coefficient; a two-pass evaluation is accurate to ~1e-13 here."""
+    N = N or rng.choice([2, 3, 4, 5, 8, 16, 33, rng.randint(2, maxn), rng.randint(6, maxn), maxn])
+    nd = rng.choice([1, 2, 2, 3])
+    tshape = [rng.randint(1, 3) for _ in range(nd - 1)] + [N]
+    nrows = int(np.prod(tshape[:-1]))
+    where = rng.choice(["target", "target", "both", "seed"])
+    sfl = small_fluct(rng, N)
+    sbase = rng.choice(BASELINES) if where in ("both", "seed") else rng.choice([0, 37, 1000])
+    rws = []
+    for j in range(nrows):
+        f = small_fluct(rng, N)
+        if j == 0 and N > 2 and rng.random() < 0.4:       # one well-correlated target
+            f = [a * rng.choice([1, -1]) + rng.randint(-3, 3) for a in sfl]
+            if len(set(f)) == 1:
+                f[0] += 1
+        b = rng.choice(BASELINES) if where in ("both", "target") else rng.choice([0, -5, 1000])
+        rws.append([b + a for a in f])
+    dt = rng.choice(["float64", "float64", "int64", "int32"])
+    seed = np.array([sbase + a for a in sfl], dtype=dt)
+    target = np.array(rws, dtype=dt).reshape(tshape)
+    vs = ["plain", "plain", "fortran", "strided", "negstride", "readonly", "plus0", "analyzer", "analyzer"]
+    if nd == 2:
+        vs += ["analyzer2", "analyzer2"]
+    if dt == "float64":
+        vs.append("list")
+    return {"k": "seed", "seed": arr_desc(seed), "target": arr_desc(target), "v": rng.choice(vs), "baseline": where}
+
+
+def gen_norm_baseline(rng, maxn, which):
+    """zscore / percent_change of lanes with small integer fluctuations on a large baseline (the statements
+    hold for every offset: zero mean / unit variance resp. zero mean).  percent_change: any baseline.
+    zscore: the mean of n values near B carries a rounding error ~1e-16*B that the exact-moment oracle
+    (tolerance 1e-9 on the mean of the z-scores) would see for B >= 2**22 unless n is a power of two
+    (then the mean is exact); so the largest baselines are paired with power-of-two lengths."""
+    shape, axis = gen_shape(rng, maxn)
+    nd = len(shape)
+    ax = axis + nd if axis < 0 else axis
+    base = rng.choice(BASELINES)
+    if which == "zscore" and abs(base) > 2 ** 20:
+        shape[ax] = rng.choice([2, 4, 8, 16])
+    N = shape[ax]
+    dt = rng.choice(["float64", "float64", "int64", "int32"])
+    x = np.zeros(shape, dtype=dt)
+    xm = np.moveaxis(x, ax, -1)
+    for idx in np.ndindex(xm.shape[:-1]):
+        xm[idx] = np.array([base + a for a in small_fluct(rng, N)], dtype=dt)
+    return {"k": which, "axis": axis, "x": arr_desc(x), "v": norm_variant(rng, shape, axis), "baseline": True}
 
 
 # ---- zscore / percent_change
@@ -1207,6 +1282,14 @@ def run(ctx):
             ds.append(gen_xcorr(rng, maxn, "xcorr", N=N))
             ds.append(gen_xcorr(rng, maxn, "xcorr_norm", N=N - 1))
             ds.append(gen_corrspec(rng, maxn, n=N - rep))
+    # offset independence: small exactly representable fluctuations on a baseline 2**20..2**30 / 1e9
+    for rep in range(ctx.scale(30, 120)):
+        ds.append(gen_seed_baseline(rng, maxn))
+    for N in ctx.scale([64, 257], [64, 129, 257, 512]):
+        ds.append(gen_seed_baseline(rng, maxn, N=N))
+    for which in ("zscore", "pct"):
+        for rep in range(ctx.scale(8, 40)):
+            ds.append(gen_norm_baseline(rng, maxn // 2, which))
     # every float dtype at the ends of the magnitude range, every run (a hidden absolute threshold
     # such as machine eps must meet data below it: float64 < 2**-52, float32 < 2**-23)
     strata = {"float64": (-70, -60, -52, 60), "complex128": (-70, -56, 45), "float32": (-40, -30, 30), "complex64": (-40, -27, 25)}
@@ -1262,7 +1345,8 @@ def run(ctx):
     ctx.extra["phase_seconds"] = {"run_implementation": round(t1 - t0, 1), "K_coqc": round(t2 - t1, 1), "oracle": round(_t.time() - t2, 1)}
     ctx.extra["rule"] = ("seeded generator: crosscov/crosscorr/autocov/autocorr on 1..3-d arrays (any axis, also negative), "
                          "float64/complex128/int64/float32/complex64, all flag combinations, lengths 2..%d of every parity and "
-                         "around powers of two; seed_corrcoef; zscore/percent_change along every axis; CorrelationAnalyzer "
+                         "around powers of two; seed_corrcoef (also through SeedCorrelationAnalyzer, 1..3-d targets, small integer "
+                         "fluctuations on baselines 2^20..2^30 / 1e9 in seed, targets or both); zscore/percent_change along every axis; CorrelationAnalyzer "
                          "xcorr/xcorr_norm with 2..4 channels; correlation_spectrum; entropy family over alphabets 1..6, "
                          "1..3 variables, lags 1..5, lengths to 200; data scaled by 2^-60..2^40 (tolerances relative to the data "
                          "scale); inputs also as Fortran-ordered / strided / negative-stride / read-only / derived (a+0) arrays, "
